@@ -323,7 +323,21 @@ HistAll(u) == { C19Conc(l) : l \in {0, 20000, 60000} } \cup { C19Port(80, 443), 
               \cup { C16Hist(b) : b \in {1, 40, 300} } \cup { C17Conc(pr, l) : pr \in {<<"icmp", "", FALSE>>, <<"udp", "", FALSE>>}, l \in {0, 30000, 300000} }
 
 ---------------------------------------------------------------------------
-Cases == CASE Gen = "C06" -> C06ReqAll(0) [] Gen = "C01" -> C01ReqAll(0) [] Gen = "C05" -> C05All(0) [] Gen = "Hist" -> HistAll(0) [] Gen = "C15" -> C15All(0)
+---------------------------------------------------------------------------
+(* C10 at request level: the enrichment services misbehave (a resolver that answers after 0.3 / 2.6 / 4.9 s, that fails, that      *)
+(* stalls until its timeout; a public-IP provider that is slow or fails) - when the call returns no goroutine of it is left and    *)
+(* every handle is closed, whatever the services did                                                                             *)
+C10Enrich(pr, dnsb, pub, via) ==
+    [id |-> "C10/enrich/" \o pr[1] \o pr[2] \o "/" \o via \o "/" \o dnsb \o "/" \o pub, label |-> "enrich/" \o pr[1] \o "/" \o via \o "/dns=" \o dnsb \o "/pub=" \o pub,
+     kind |-> "run", per_flow |-> TRUE, sack_perm |-> TRUE, isn32 |-> <<4660, 1>>,
+     run |-> [Run(pr[1], pr[2], pr[3], 1, 4, 1, 1) EXCEPT !.reverse_dns = TRUE, !.dns = [x \in {"*"} |-> dnsb], !.via = via,
+                !.public_ip = (pub # "none"), !.pub_mode = IF pub = "none" THEN "ok" ELSE pub,
+                !.query = "target=" \o T4 \o "&max-ttl=4&traceroute-queries=1&e2e-queries=1&timeout=300&reverse-dns=true&protocol=" \o pr[1]],
+     path |-> PathFor(pr[1], pr[3], 1, 4, 3, 0)]
+C10ReqAll(u) == { C10Enrich(pr, d, pub, via) : pr \in {<<"udp", "", FALSE>>, <<"icmp", "", FALSE>>}, via \in {"lib", "http"},
+                                               d \in {"+300:n-slow", "+2600:n-slower", "+4900:n-slowest", "!boom", "~", "n-a;+2600:n-b"}, pub \in {"none", "slow", "fail"} }
+
+Cases == CASE Gen = "C06" -> C06ReqAll(0) [] Gen = "C10" -> C10ReqAll(0) [] Gen = "C01" -> C01ReqAll(0) [] Gen = "C05" -> C05All(0) [] Gen = "Hist" -> HistAll(0) [] Gen = "C15" -> C15All(0)
            [] Gen = "C11" -> C11All(0)
            [] Gen = "C17" -> C17All(0)
            [] Gen = "C19" -> C19All(0)
